@@ -36,6 +36,31 @@ CHECKS = {
          "The real fsloop.Loop runs over generated trees (empty, deep, wider than the channel capacity, random), hash-keyed filters, producer/consumer limits 0..16 and GOMAXPROCS 1/2/4/16, with noise injected from the hook points and the source's ReadDir and one injected callback or listing fault in part of the runs; callbacks log enter/exit events and an offline checker decides exactly-once, no unexpected node, in-flight bound, nothing after Wait, error present iff injected. A controller parks every consumer at the hook between its two exit tests while a gated source lets the last directory be listed and the close be announced (also through fshelper.Copy). Race reports in fsloop/jobsync decide. Held on the schedules produced, counted by hook-order signature.",
          "interleavings are sampled, not enumerated; only the window for which hooks exist is forced deterministically",
          "DESIGN.md §5 C08"),
+ "C10": ("exploration",
+         "lock-step reference-model monitor (operational DI model with invocation counters and instance identity) over bounded-exhaustive definition sequences and random programs",
+         "Every program (all definition sequences up to a length bound over a call alphabet with failing/flaky/optional/cyclic factory shapes, plus seeded random programs on four construction paths incl. the goatapp mock application) is run against the real container and against a model written from the statement; the event traces (ok/error class, instance identity, per-factory invocation counts, acceptance of definitions) must match, and model-independent checks (identity never changes, no re-run after an instance, explicit beats default, late definitions refused, cycles end in an error) run on the container side. Held on the programs executed.",
+         "single goroutine (the statement does not promise concurrent use); duplicate same-class definitions follow the implementation's accept/refuse answer",
+         "DESIGN.md §5 C10"),
+ "C13": ("exploration",
+         "reference-model monitor for the overlay, conservation/permutation oracles and porcupine linearizability checking of recorded histories for locked sections, Go race detector",
+         "Overlay: all histories up to a length bound and random histories on scope trees against a chain-of-maps model, whole visible state compared after every step. Atomicity: 2..32 goroutines run locked read-modify-write, transfer and audit sections against plain readers/writers/lockers under GOMAXPROCS 1..16; final counter = sections, values read form a permutation, one holder at a time, sums conserved, and recorded mixed histories are checked with porcupine per key (rmw spanning LockData..Commit as one operation). Get-or-create services called from many goroutines must return one instance. Race reports in datascope and the three services decide. Held on the histories and interleavings produced.",
+         "exclusion is judged per scope (ancestors static in concurrent workloads); misuse (locker after Commit) not exercised; porcupine Unknown = inconclusive",
+         "DESIGN.md §5 C13"),
+ "C15": ("exploration",
+         "critical-section interval monitor (online shadow table + offline interval replay), scripted gated pairs/triples decided from goroutine scheduler states, logical-deadlock diagnosis from goroutine dumps, Go race detector",
+         "2..24 holders with random and adversarial lock maps (names that sort differently by byte/case/locale, pending-writer chains, first-use races) hammer one SharedMutex; each section is checked online against a shadow readers/writer table and offline from recorded [Lock returned, Unlock called] intervals; all 729 ordered pairs of lock maps over three names are scripted with A gated inside: B must enter iff the maps do not conflict (decided from B's parked/running state, not from time); completion or a logical-deadlock diagnosis decides 'no deadlock'. The same interval oracle runs on probe logs of tasks submitted through the real pipeline (pip:run --rlock/--wlock). Held on the workloads and schedules produced.",
+         "'never deadlocks' restated as bounded progress + deadlock diagnosis; non-serialisation decided only for scripted pairs/triples",
+         "DESIGN.md §5 C15"),
+ "C19": ("exploration",
+         "differential runtime monitor against a reference renderer built directly on html/template / text/template plus an abstract layering model; concurrent first-use stress under the race detector with process supervision",
+         "Generated template file sets (overlapping definitions across helpers/layouts/views, nested directories, ignored and unparsable files) and request sequences are served by cached and uncached providers of both packages; every answer's defined names and every name's rendering are compared with the reference renderer, with a library-independent layering model and between cached and uncached; all 1024 placements of two names over the layers and all request orders up to a bound are enumerated. Fresh cached providers are hit by 2..32 goroutines released together with noise at the filespace boundary; every caller's answer is checked and race reports in the provider files decide; a fatal 'concurrent map' abort is attributed to the running trial. Held on the programs and schedules produced.",
+         "names are defined once per layer (walk order independent); base/layout inspected on clones",
+         "DESIGN.md §5 C19"),
+ "C20": ("exploration",
+         "round-trip and differential runtime oracles against encoding/json (bounded-exhaustive + random), loader stress with schedule noise and injected read faults under the race detector",
+         "Flatten/rebuild is checked as mutually inverse on random nested and flat maps; JSON reading is compared leaf by leaf with encoding/json on documents rendered by two renderers (escape spellings, surrogate pairs, whitespace); both writers must produce valid JSON that decodes to the reference map and reads back unchanged, exhaustively for all values up to length 3 over seven significant characters; fsi18loader.Load runs over random directory layouts (1..300 files, memory/disk, nil/real scope, GOMAXPROCS and pool sizes varied, yields and sleeps inside ReadDir/ReadFile, concurrent Translate callers, one injected read failure): nil result implies every key translates to its value. Race reports in i18mem/loader/plainmap decide. Held on the inputs and schedules produced.",
+         "dot-free non-empty keys, valid UTF-8, %-free translation values as in the statement's quantifier",
+         "DESIGN.md §5 C20"),
  "C17": ("exploration",
          "runtime oracle over bounded-exhaustive + random inputs (reference splitter / render-split round trip)",
          "ReadArguments is run on every byte string up to a length bound over the 9 significant bytes (no panic, bounded reads, exact expected result on the quote-free sub-language) and on scripts rendered from random argument lists by a reference quoting function; InjectArgs mapping compared with an independent expectation. Held on the enumerated/sampled inputs only.",
